@@ -24,6 +24,7 @@ type Spec struct {
 	Driver       string // package path of the driver, relative to /verif
 	ModFile      string
 	GoBin        string
+	TestBinary   bool
 	Rewrites     []RewriteSpec
 	Flavours     []string
 	Quick        TierParams
@@ -120,6 +121,20 @@ var specs = map[string]*Spec{
 		Components:   machComponents,
 		Assumptions:  []string{"crash model: durable = fsynced data + journal prefix (strict: fsync(file) forces only that file; ordered: also all earlier metadata); unsynced writes persist in any subset, possibly torn", "visibility after a crash is what a remounted DirFs reads"},
 		ExpectProbes: []string{"batch_crash", "batch_fault", "batch_conc", "crash", "crash_new_visible", "crash_old_visible", "crash_with_rename_unforced", "fresh_call_over_leftover_tmp", "call_panicked_on_fault", "fault_absorbed", "conc_independent", "conc_same-name-same-dir", "conc_same-name-different-dirs"},
+	},
+	"C16": {
+		ID: "C16", Title: "Remaining machine primitives meet their modelled contracts (WaitTimeout clause)",
+		Driver: "./drivers/c16drv", ModFile: "go.mod", GoBin: "/opt/veriftools/go1.26.8/bin/go", TestBinary: true,
+		Flavours: []string{"plain"},
+		Quick:    TierParams{Runs: 40000, Budget: 5 * time.Minute},
+		Thorough: TierParams{Budget: 10 * time.Minute},
+		Level:    "exploration",
+		Rule: "each plan is one sync.Cond, a sequence of 1-3 machine.WaitTimeout calls (timeouts 0,1,2,10,100,10000,2^32 ms or random < 300 ms; optional pauses with the lock released between calls) and 0-4 concurrent events at distinct simulated instants aimed before / just before / just after / long after a timeout: Signal, Broadcast, or a plain cond.Wait waiter; executed with the real machine.WaitTimeout -> primitive.WaitTimeout, real sync and time under testing/synctest's fake clock (go1.26.8). " +
+			"Oracles against an ideal timed wait on a FIFO condition variable: returns holding the lock (TryLock fails), within 1 ms of simulated time after the timeout, within 1 ms after the Broadcast/Signal that reaches it, never panics, the bubble drains. Every 64th plan is the auxiliary, non-simulation assertion set for the three pure clauses (UInt64ToString, MapClear, Assume/Assert); it is not counted as non-trivial. " +
+			"Non-trivial: at least one concurrent event or more than one call; distinct = distinct (plan, observed return times).",
+		Components:   map[string]string{"machine/prims.go WaitTimeout": "real", "github.com/goose-lang/primitive v0.1.0 WaitTimeout": "real", "sync.Cond, sync.Mutex, goroutines": "real", "time (clock, timers)": "stub: testing/synctest fake clock of go1.26.8; goroutine choice inside the bubble is the Go runtime's (events are placed at distinct instants so that it cannot change the outcome)"},
+		Assumptions:  []string{"testing/synctest cannot advance time while a goroutine is blocked on a sync.Mutex, so no task holds the lock across simulated time (lock-hold delays are not explored)", "early (spurious) returns are allowed, as in the GooseLang model; only the upper bounds are checked"},
+		ExpectProbes: []string{"woken_by_signal", "woken_by_broadcast", "timed_out", "aux_assertions"},
 	},
 	"C14": {
 		ID: "C14", Title: "Filesystem operations are linearizable under concurrency",
